@@ -208,6 +208,10 @@ def isCastOrShortcut : CStep → Bool
   | .atom (.shortcut _ _) => true
   | _ => false
 
+def isShortcut : CStep → Bool
+  | .atom (.shortcut _ _) => true
+  | _ => false
+
 def shortcutsOf : List CStep → List Tree
   | [] => []
   | .atom (.shortcut _ ph) :: rest => (placeholderStmt ph).toList ++ shortcutsOf rest
@@ -229,21 +233,27 @@ def fnTyped (fn : String) (fin : Bool) (steps : List CStep) : Bool :=
   | [k] =>
     fin && !specialFns.contains fn && (typeSwitches.lookup fn).isNone
     && (bodyOf steps).all (cstepTyped k)
-    -- a shortcut is preceded by casts only
-    && ((bodyOf steps).takeWhile isCastOrShortcut ++ ((bodyOf steps).dropWhile isCastOrShortcut).filter (fun s => !isCastOrShortcut s) == bodyOf steps)
+    -- a shortcut is preceded by casts and shortcuts only
+    && ((bodyOf steps).dropWhile isCastOrShortcut).all (fun s => !isShortcut s)
     -- placeholders of the node's own kind are recognised by a shortcut (or nothing looks at the pattern's structure)
-    && (!(bodyOf steps).any needsStructure || ((placeholdersFor false k).filter (·.kind == k)).all (shortcutsOf steps).contains)
+    && (!(bodyOf steps).any needsStructure || ((placeholdersFor false k).filter (·.kind == k)).all (shortcutsOf (bodyOf steps)).contains)
   | _ => false
 
+/-- `fn` is a well-typed field-by-field comparator of the table -/
+def okRegular (fn : String) : Bool :=
+  match compiled.lookup fn with
+  | some (fin, steps) => fnTyped fn fin steps
+  | none => false
+
 /-- the field-by-field comparators the theorem covers -/
-def typedFns : List String := (compiled.filter fun e => fnTyped e.1 e.2.1 e.2.2).map (·.1)
+def typedFns : List String := (compiled.map (·.1)).filter okRegular
 
 /-- a plain case of a type switch is well typed -/
 def caseTyped (fn : String) (c : String × String × String × String) : Bool :=
   let (k, callee, qa, pa) := c
   excludedCases.contains (fn, k) || callee == "special" ||
   ((parseOpnd qa == qWhole && parseOpnd pa == pWhole && !builtinCmp callee && rankOf callee < 3
-      && (rank1Fns.contains callee || rank2Specials.contains callee || typedFns.contains callee) && (domOf callee).kinds.contains k)
+      && (rank1Fns.contains callee || rank2Specials.contains callee || okRegular callee) && (domOf callee).kinds.contains k)
    || ((placeholdersFor false k).isEmpty &&
         (fieldNames k).any fun f => parseOpnd qa == qField f && parseOpnd pa == pField f && f != "CompliantName()" && f != ""
           && ((Tree.fieldIndex k f).all fun j => !whereSlot true k j) && partOk callee (declTy k f)))
@@ -255,11 +265,11 @@ def switchTyped (fn : String) : Bool :=
 
 /-- the functions `P` is proved for -/
 def okFn (fn : String) : Bool :=
-  rank1Fns.contains fn || rank2Specials.contains fn || typedFns.contains fn || switchTyped fn
+  rank1Fns.contains fn || rank2Specials.contains fn || okRegular fn || switchTyped fn
 
 /-- `fn` accepts `t` as its query argument -/
 def accepts (fn : String) (t : Tree) : Bool :=
-  okFn fn && ((t.isNilNode && (domOf fn).nilOk) || (!t.isNilNode && (domOf fn).kinds.contains t.kind))
+  okFn fn && !t.isLeaf && ((t.isNilNode && (domOf fn).nilOk) || (!t.isNilNode && (domOf fn).kinds.contains t.kind))
 
 /-! ## the matcher-side half of the typing judgement -/
 
@@ -301,7 +311,7 @@ def caseAcc (k : String) (ks : List Tree) (fn : String) (c : String × String ×
 
 /-- node `node k ks`: every comparison any covered function makes on it finds an acceptable part -/
 def accNode (k : String) (ks : List Tree) : Bool :=
-  (compiled.all fun e => !(typedFns.contains e.1 && (domOf e.1).kinds == [k]) || (bodyOf e.2.2).all (cstepAcc k ks))
+  (compiled.all fun e => !(okRegular e.1 && (domOf e.1).kinds == [k]) || (bodyOf e.2.2).all (cstepAcc k ks))
   && (typeSwitches.all fun e => e.2.all (caseAcc k ks e.1))
   && specialSites.all (siteAcc k ks)
 
